@@ -157,7 +157,10 @@ pub fn execute(prop: &str, sc: &CleanScript, opts: &ExecOpts) -> Outcome {
         if sc.wplan.len() > 1 {
             fw.set_backpressure_boundary(64);
         }
+        // "stuck" = many consecutive polls without a single byte reaching the pipe (a slow plan that
+        // accepts one byte every few polls is slow, not stuck)
         let mut stuck = 0u32;
+        let mut last_len = 0usize;
         for f in &expected {
             // poll_ready
             loop {
@@ -168,8 +171,13 @@ pub fn execute(prop: &str, sc: &CleanScript, opts: &ExecOpts) -> Outcome {
                         return;
                     }
                     Poll::Pending => {
+                        let len = fw.get_ref().out.len();
+                        if len != last_len {
+                            last_len = len;
+                            stuck = 0;
+                        }
                         stuck += 1;
-                        if stuck > 5_000_000 {
+                        if stuck > 100_000 {
                             out.violate(prop, "write-stuck", "framed-write", "poll_ready never became ready".into());
                             return;
                         }
@@ -189,8 +197,13 @@ pub fn execute(prop: &str, sc: &CleanScript, opts: &ExecOpts) -> Outcome {
                     return;
                 }
                 Poll::Pending => {
+                    let len = fw.get_ref().out.len();
+                    if len != last_len {
+                        last_len = len;
+                        stuck = 0;
+                    }
                     stuck += 1;
-                    if stuck > 5_000_000 {
+                    if stuck > 100_000 {
                         out.violate(prop, "write-stuck", "framed-write", "poll_flush never completed".into());
                         return;
                     }
@@ -208,7 +221,12 @@ pub fn execute(prop: &str, sc: &CleanScript, opts: &ExecOpts) -> Outcome {
         let mut fr = FramedRead::new(PipeReader::new(wire.clone(), sc.rplan.clone(), false), MessageCodec);
         let mut got: Vec<Frame> = vec![];
         let mut pend = 0u32;
+        let mut last_off = 0usize;
         loop {
+            if fr.get_ref().off != last_off {
+                last_off = fr.get_ref().off;
+                pend = 0;
+            }
             match Pin::new(&mut fr).poll_next(&mut cx) {
                 Poll::Ready(Some(Ok(f))) => got.push(f),
                 Poll::Ready(Some(Err(e))) => {
@@ -218,7 +236,7 @@ pub fn execute(prop: &str, sc: &CleanScript, opts: &ExecOpts) -> Outcome {
                 Poll::Ready(None) => break,
                 Poll::Pending => {
                     pend += 1;
-                    if pend > 5_000_000 {
+                    if pend > 100_000 {
                         out.violate(prop, "read-stuck", "framed-read", "reader never finished".into());
                         break;
                     }
